@@ -10,8 +10,8 @@
  * Nothing is written except the ghost witness.
  *
  * Behaviours: .samelen / .within are the cases the current code handles; .difflen / .beyond fail
- * on this tree (known_findings: C07-mbuff-cmp-prefix, C07-mbuff-cmp-ptr-overread): the code compares
- * MIN(len) bytes (resp. the caller's count) only.  In those behaviours the EQUAL clause is the
+ * on this tree (known_findings: C07-mbuff-cmp-prefix, C07-mbuff-cmp-ptr-overread): cmp/comp/ncmp compare
+ * MIN(len) bytes only, cmp_with_ptr reads the caller's count whatever the buffer holds.  In those behaviours the EQUAL clause is the
  * ENS_KF clause (checked alone by the *.eq units), every other clause must hold. */
 
 /*@unit
@@ -108,8 +108,8 @@ objbits: 6
 flags: --slice-formula
 */
 /*@unit
-name: mbuff.cmp_with_ptr.samelen
-define: U_CMP_PTR, U_SAMELEN
+name: mbuff.cmp_with_ptr.within
+define: U_CMP_PTR, U_WITHIN
 src: mbuff.c
 enforce: spif_mbuff_cmp_with_ptr
 backend: sat
@@ -117,8 +117,8 @@ objbits: 6
 flags: --slice-formula
 */
 /*@unit
-name: mbuff.cmp_with_ptr.shorter
-define: U_CMP_PTR, U_SHORTER, U_NOT_KF
+name: mbuff.cmp_with_ptr.slack
+define: U_CMP_PTR, U_SLACK
 src: mbuff.c
 enforce: spif_mbuff_cmp_with_ptr
 backend: sat
@@ -126,17 +126,8 @@ objbits: 6
 flags: --slice-formula
 */
 /*@unit
-name: mbuff.cmp_with_ptr.shorter.eq
-define: U_CMP_PTR, U_SHORTER, U_ONLY_KF
-src: mbuff.c
-enforce: spif_mbuff_cmp_with_ptr
-backend: sat
-objbits: 6
-flags: --slice-formula
-*/
-/*@unit
-name: mbuff.cmp_with_ptr.longer
-define: U_CMP_PTR, U_LONGER
+name: mbuff.cmp_with_ptr.beyond
+define: U_CMP_PTR, U_BEYOND
 src: mbuff.c
 enforce: spif_mbuff_cmp_with_ptr
 backend: sat
@@ -163,8 +154,28 @@ flags: --slice-formula
 funcs: spif_mbuff_cmp_with_ptr
 */
 /*@unit
+name: mbuff.ncmp_with_ptr.slack
+define: U_NCMP_PTR, U_SLACK
+src: mbuff.c
+enforce: spif_mbuff_ncmp_with_ptr
+backend: sat
+objbits: 6
+flags: --slice-formula
+funcs: spif_mbuff_cmp_with_ptr
+*/
+/*@unit
 name: mbuff.ncmp_with_ptr.beyond
 define: U_NCMP_PTR, U_BEYOND
+src: mbuff.c
+enforce: spif_mbuff_ncmp_with_ptr
+backend: sat
+objbits: 6
+flags: --slice-formula
+funcs: spif_mbuff_cmp_with_ptr
+*/
+/*@unit
+name: mbuff.ncmp_with_ptr.null
+define: U_NCMP_PTR, U_NULL
 src: mbuff.c
 enforce: spif_mbuff_ncmp_with_ptr
 backend: sat
@@ -249,28 +260,26 @@ void harness(void)
 #endif
 
 #if defined(U_CMP_PTR) || defined(U_NCMP_PTR)
+/* cmp_with_ptr(self, p, n) and its alias ncmp_with_ptr compare n bytes of self with p[0..n) - the library's own
+ * tests use it that way (test.c: a 6-byte buffer "equals" the 5 bytes "is is").
+ *   .within  n <= len           ideal comparison of the first n bytes of the sequence with p[0..n)
+ *   .slack   len < n <= size    the bytes between len and size are compared too.  The ideal sequence would answer
+ *                               LESS (it has ended), but the baseline test suite requires this reading (test.c:980
+ *                               compares the terminator that sprintf leaves in the slack), so only memory safety and
+ *                               the range of the answer are specified here - stated limitation, not a finding
+ *   .beyond  n > size           the sequence is shorter than n: never EQUAL; on this tree memcmp reads past the
+ *                               block (C07-mbuff-cmp-ptr-overread) */
 # ifdef U_CMP_PTR
 #  define FN spif_mbuff_cmp_with_ptr
-/* the sequence self against the sequence other[0..len) */
-#  define LA  (self->len)
-#  define LB  (len)
-#  if defined(U_SAMELEN)
-#   define REL(a, n) ((n) == (a)->len)
-#  elif defined(U_SHORTER)
-#   define REL(a, n) ((n) < (a)->len)
-#  else
-#   define REL(a, n) ((n) > (a)->len)
-#  endif
 # else
 #  define FN spif_mbuff_ncmp_with_ptr
-/* the first len bytes of self against other[0..len) */
-#  define LA  VMIN(len, self->len)
-#  define LB  (len)
-#  if defined(U_WITHIN)
-#   define REL(a, n) ((n) <= (a)->len)
-#  else
-#   define REL(a, n) ((n) > (a)->len)
-#  endif
+# endif
+# if defined(U_WITHIN)
+#  define REL(a, n) ((n) <= (a)->len)
+# elif defined(U_SLACK)
+#  define REL(a, n) ((n) > (a)->len && (n) <= (a)->size)
+# else
+#  define REL(a, n) ((n) > (a)->size)
 # endif
 # ifdef U_NULL
 spif_cmp_t FN(spif_mbuff_t self, spif_byteptr_t other, spif_memidx_t len)
@@ -282,7 +291,15 @@ __CPROVER_ensures(RV == (self == NULL ? (other == NULL ? SPIF_CMP_EQUAL : SPIF_C
 # else
 spif_cmp_t FN(spif_mbuff_t self, spif_byteptr_t other, spif_memidx_t len)
 __CPROVER_requires(MBUFF_INV(self) && 0 <= len && len <= VCAP && __CPROVER_is_fresh(other, (size_t) len) && REL(self, len))
-CMP_CONTRACT(self->buff, LA, other, LB)
+#  if defined(U_WITHIN)
+CMP_CONTRACT(self->buff, len, other, len)
+#  else
+__CPROVER_assigns(vg_cmp_d)
+__CPROVER_ensures(RV == SPIF_CMP_LESS || RV == SPIF_CMP_EQUAL || RV == SPIF_CMP_GREATER)
+#   ifdef U_BEYOND
+__CPROVER_ensures(RV != SPIF_CMP_EQUAL)
+#   endif
+#  endif
 ;
 # endif
 void harness(void)
